@@ -206,6 +206,7 @@ RuleCodes(r) ==
     [] r = "RegType" -> {"reg_type", "wrong_type"}
     [] r = "RegReserved" -> {"reserved_name"}
     [] r = "RegRepeated" -> {"repeated_decl"}
+    [] r = "HardRegUnknown" -> {"hard_reg"}
     [] r = "ResType" -> {"wrong_type"}
     [] r = "VarargNoArg" -> {"vararg_func"}
 
@@ -399,6 +400,33 @@ FuncDeclCheck(res, args, va) ==
    u |-> (IF va /\ args = <<>> THEN {"VarargWithoutFixedArg"} ELSE {})
          \cup (IF \E i \in 1..Len(args) : args[i].t = "undef" THEN {"UndefArgType"} ELSE {})
          \cup (IF \E i \in 1..Len(args) : args[i].n \in UndocReserved THEN {"UndocumentedReservedName"} ELSE {})]
+(* MIR_new_global_func_reg ("MIR function": "Global variables are variables which always bound to      *)
+(* specific hard register ... Here are the permitted hard register names: x86_64: rax ... st1").        *)
+(* A declaration step is [n: name, t: type, hr: hard register name or "-" for MIR_new_func_reg].        *)
+(* The name rules are those of every variable ("A variable should have an unique name in the function", *)
+(* whatever kind of variable declared it first).  MIR.md does not say which types a hard register can   *)
+(* hold: the pairing general register-i64, xmm-f/d, st-ld is taken as what "permitted" promises, every  *)
+(* other pairing is unspec; so is tying a second name to a hard register already tied (the code lets    *)
+(* both names share one register).                                                                      *)
+GprNames == {"rax", "rcx", "rdx", "rbx", "rsp", "rbp", "rsi", "rdi", "r8", "r9", "r10", "r11", "r12", "r13", "r14", "r15"}
+XmmNames == {"xmm0", "xmm1", "xmm2", "xmm3", "xmm4", "xmm5", "xmm6", "xmm7", "xmm8", "xmm9", "xmm10", "xmm11", "xmm12",
+             "xmm13", "xmm14", "xmm15"}
+StNames == {"st0", "st1"}
+HardRegNames == GprNames \cup XmmNames \cup StNames        \* the x86_64 list of MIR.md
+NotHardRegNames == {"foo", "r16", "xmm16", "st2", "eax", "R12", "hr12", "r0", "sp"}   \* r0, sp: other targets' names
+NaturalPair(hr, t) == (hr \in GprNames /\ t = "i64") \/ (hr \in XmmNames /\ t \in {"f", "d"}) \/ (hr \in StNames /\ t = "ld")
+DStep(n, t, hr) == [n |-> n, t |-> t, hr |-> hr]
+GDeclCheck(prev, st) ==
+  LET declared == {"a1"} \cup {prev[i].n : i \in 1..Len(prev)}
+  IN [v |-> (IF st.t \notin {"i64", "u64", "f", "d", "ld"} THEN {"RegType"} ELSE {})
+            \cup (IF st.n \in DocReserved THEN {"RegReserved"} ELSE {})
+            \cup (IF st.n \in declared THEN {"RegRepeated"} ELSE {})
+            \cup (IF st.hr # "-" /\ st.hr \notin HardRegNames THEN {"HardRegUnknown"} ELSE {}),
+      u |-> (IF st.t = "u64" THEN {"U64Reg"} ELSE {})
+            \cup (IF st.n \in UndocReserved THEN {"UndocumentedReservedName"} ELSE {})
+            \cup (IF st.hr \in HardRegNames /\ ~NaturalPair(st.hr, st.t) THEN {"HardRegTypePairing"} ELSE {})
+            \cup (IF st.hr # "-" /\ \E i \in 1..Len(prev) : prev[i].hr = st.hr /\ prev[i].n # st.n
+                   THEN {"TwoNamesOneHardReg"} ELSE {})]
 MkVerdict(c) ==
   IF c.v # {} THEN [exp |-> "err", rules |-> c.v, unspec |-> c.u,
                     codes |-> UNION2({RuleCodes(r) : r \in c.v}), anycode |-> c.u # {}]
@@ -558,7 +586,38 @@ FuncDeclCases ==
           @@ MkVerdict(FuncDeclCheck(<<>>, <<Arg(n1, "i64"), Arg(n2, "f")>>, va)) : n1 \in {"a", "b", "t1", "hr1"}, n2 \in {"a", "b"}, va \in BOOLEAN}
   \cup {[grp |-> "decl", key |-> "func:vararg:noargs", what |-> "func", res |-> <<>>, args |-> <<>>, va |-> TRUE]
           @@ MkVerdict(FuncDeclCheck(<<>>, <<>>, TRUE))}
-DeclCases == RegDeclCases \cup FuncDeclCases
+(* global variable declarations: every hard register name x register type, names that are not hard       *)
+(* registers, and every declaration sequence of length <= 3 over a small alphabet of steps whose earlier  *)
+(* steps are not errors (the binding stops at an earlier unspec step the code rejects)                    *)
+(* stem of the finding key: what the last step is, who declared its name before, is its hard register tied *)
+NameOrigin(prev, st) ==
+  IF st.n = "a1" THEN "arg"
+  ELSE IF ~\E i \in 1..Len(prev) : prev[i].n = st.n THEN "new"
+  ELSE LET i == CHOOSE k \in 1..Len(prev) : prev[k].n = st.n /\ \A j \in 1..k - 1 : prev[j].n # st.n
+       IN IF prev[i].hr = "-" THEN "local"
+          ELSE IF \E j \in 1..i - 1 : prev[j].hr = prev[i].hr THEN "alias" ELSE "global"
+GFkey(key, prev, st) ==
+  IF prev = <<>> THEN key
+  ELSE "gseq:" \o (IF st.hr = "-" THEN "local" ELSE "global") \o ":name_" \o NameOrigin(prev, st) \o ":hr_"
+       \o (IF st.hr = "-" THEN "none" ELSE IF \E i \in 1..Len(prev) : prev[i].hr = st.hr THEN "tied" ELSE "free")
+GRow(key, prev, st) ==
+  [grp |-> "decl", key |-> key, fkey |-> GFkey(key, prev, st), what |-> "greg", pre |-> prev, step |-> st,
+   preexp |-> [i \in 1..Len(prev) |-> MkVerdict(GDeclCheck(SubSeq(prev, 1, i - 1), prev[i])).exp]]
+  @@ MkVerdict(GDeclCheck(prev, st))
+StepKey(st) == st.n \o (IF st.t = "i64" THEN "" ELSE "." \o st.t) \o (IF st.hr = "-" THEN "" ELSE ":" \o st.hr)
+RECURSIVE StepsKey(_)
+StepsKey(q) == IF Len(q) = 0 THEN "" ELSE StepKey(q[1]) \o (IF Len(q) = 1 THEN "" ELSE ",") \o StepsKey(Tail(q))
+GStepAlphabet == {DStep("x", "i64", "-"), DStep("h", "i64", "-"), DStep("g", "i64", "r12"), DStep("g", "i64", "r13"),
+                  DStep("h", "i64", "r12"), DStep("h", "i64", "r13"), DStep("x", "i64", "r12"), DStep("a1", "i64", "r12"),
+                  DStep("gf", "f", "xmm0"), DStep("hf", "f", "xmm0"), DStep("hf", "d", "xmm0")}
+GSeqs == UNION {[1..k -> GStepAlphabet] : k \in 1..3}
+PrefixNotErr(q) == \A i \in 1..Len(q) - 1 : MkVerdict(GDeclCheck(SubSeq(q, 1, i - 1), q[i])).exp # "err"
+GRegCases ==
+  {GRow("greg:" \o t \o ":" \o hr, <<>>, DStep("g", t, hr)) : t \in {"i64", "f", "d", "ld"}, hr \in HardRegNames \cup NotHardRegNames}
+  \cup {GRow("greg:" \o t \o ":r12", <<>>, DStep("g", t, "r12")) : t \in MemTypes \ {"i64", "f", "d", "ld"}}
+  \cup {GRow("greg:name:" \o n, <<>>, DStep(n, "i64", "r12")) : n \in RegNames}
+  \cup {GRow("gseq:" \o StepsKey(q), SubSeq(q, 1, Len(q) - 1), q[Len(q)]) : q \in {r \in GSeqs : PrefixNotErr(r)}}
+DeclCases == RegDeclCases \cup FuncDeclCases \cup GRegCases
 
 (* ======================= case selection ================================= *)
 GRP == IF "GRP" \in DOMAIN IOEnv THEN IOEnv.GRP ELSE "kind"
